@@ -38,6 +38,10 @@ CHECKS = {
         technique="interprocedural information-flow (security-type / taint) analysis over LLVM IR, source-shaped and -O3, with vtable-resolved calls and def-use witnesses",
         text="Every function of the library is typed with public/secret levels: all memory is secret except an explicit table of public fields (rounds, offset, parallel_size, pointer fields), constant tables and locals that only receive public values. No conditional branch, switch, select, load/store address, vector lane index, indirect callee, memcpy/memset/calloc length, div/rem operand or returned status depends on a secret, and no secret is stored into a public field - in the source-shaped IR and in the IR at the shipped optimisation level (and in all 32 switch configurations in the thorough tier). This is a proof-style argument over all secret values at once; tests observe bytes only and cannot see timing.",
         note="Trusted: clang 14 front end/mem2reg/-O3, bin/irfacts, the public-field table (audited list of what was treated as public is written to the evidence). IR-level: back-end lowering of straight-line IR is trusted, gcc's optimiser is not inspected; x86 shifts/multiplies assumed constant-time."),
+    "C09": dict(
+        technique="extent checks on effect summaries + linear-form bound analysis of variable-length copies under dominating guard facts + alignment/type lint of accesses through caller byte pointers + read-before-write reachability + allocation-alignment agreement",
+        text="For every back end: single-block and vector batch functions touch only constant offsets inside [0, extent) of each buffer parameter (block size / advertised batch); every variable-length memcpy/memset stays inside its fixed-size destination under the dominating length guards (no unsigned wrap) and the partial key loaders' byte reads are dominated by a guard placing them below the key length; the bulk loops obey the cursor discipline (from C05/C07); vector accesses through caller byte pointers carry align 1 and configurations without unaligned access use byte accesses only (so results cannot depend on alignment); in every single-block and vector batch function no input/tweak byte is read after an output byte was written (any overlap is fine); context types needing more than calloc's alignment are allocated through the aligning wrapper with sufficient slack.",
+        note=NOTE + " Callers' buffers are assumed to have the sizes the contract states. x86 alignment rules."),
     "C10": dict(
         technique="guard-interval analysis on return-class summaries + argument-identity check at delegating calls + byte-granular definite-initialisation and packed-word narrowing analysis of the tweakey loaders + path enumeration of the round-count selector",
         text="Decides the length-acceptance and padding clauses for all key lengths and all 13 key-setting entry points in every back end: the guards on every success path imply exactly the documented range and every rejecting path crosses a violated clause; CTR/parallel entry points pass the caller's key and length unchanged to the core validator; rejection writes nothing; on partial-length paths every byte of the local tweakey is defined as key bytes or zeros before use and no packed key word is narrowed on its way into the tweakey; the stored round count per key-length class matches the specification's table. NOT decided: that the zero-padded schedule yields the specification's ciphertexts (a value property, see C01).",
@@ -46,6 +50,10 @@ CHECKS = {
         technique="byte-granular definite-initialisation dataflow with symbolic range ends and loop-fill recognition (E5) over mem2reg IR, scalar store-before-load dataflow on unoptimised IR, must-write/read-set comparison from effect summaries, loop-bound provenance",
         text="For every function of the library on every path: no byte of a stack object is read before it is written (unions as byte ranges, memset/memcpy with symbolic adjacent lengths, loop-filled arrays, reads and writes by callees through summaries); no scalar local is loaded before a store; all allocations are calloc; every init success path must-writes every handle field; every key-schedule field that any function reads is must-written (arrays: written under the shared rounds bound) by every keying function; schedule loops in writers and readers are bounded by the rounds field of the same object; init reads nothing from the caller's object. A value that depends on leftover memory compares equal to itself in a test; here the dependence itself is excluded.",
         note=NOTE + " 'Bit-identical under another optimisation level' is claimed only in the sense that uninitialised reads are excluded."),
+    "C12": dict(
+        technique="compile witnesses over the configuration matrix (clang + gcc, override hook) + cross-configuration comparison of canonical effect/guard summaries (exact byte sets read/written per object, element-inner offsets, induction-variable ranges)",
+        text="Equality of values across the alternative implementations is NOT decided. Decided: every combination of the five platform switches compiles for all 18 units with clang and gcc (quick: shipped + a pairwise covering array; thorough: all 32); for every function that does not dispatch through a back-end table, its caller-visible summary - success-path guards, return constants, and per object the exact bytes written and the bytes read that it does not write itself - is identical to the shipped configuration's in every configuration where it exists, so a word-size-, alignment- or endian-specific branch that forgets part of an update, loops over the wrong extent or validates differently is reported; and every other property's rules run in each of those configurations (thorough: all 32).",
+        note=NOTE + " Uses the guarded hook in src/skinny-internal.h (RWEATHER_SKINNY_C_VERIF)."),
     "C13": dict(
         technique="CFG path enumeration of the init cascades over probe outcomes + dataflow from CPUID/XGETBV inline-asm outputs to the probe result checked against the architecture manual + mnemonic scan of the objects the repo's Makefile builds",
         text="For every outcome of the CPU probes, each of the six init functions stores a table whose vector width does not exceed what the probes reported and is the widest compiled-in candidate (widths and byte extents are computed from the back ends' IR, not from names); the AVX2 probe binds sub-leaf 0, tests the maximum leaf and the OS-enabled YMM state on every positive path; stubbed tables imply constant-0 probes and compiled-in tables a probe that can report their width; VEX/EVEX encodings appear only in objects reachable solely through AVX2-gated tables; probes are stateless with constant asm inputs; parallel_size equals the extent the selected back end processes. Decides selection for all calling contexts and CPU models, which the suite never inspects.",
